@@ -222,7 +222,29 @@ func tryVariants(w *W, r *rand.Rand, tree *Node, withEvents bool) []tryVariant {
 	return res
 }
 
+// embedFetcher: a caller's fetcher built on top of the library's map-backed one (embedding it), with availability of
+// its own: everything is physically in the embedded store, Cached says what may be used.
+type embedFetcher struct {
+	eval.MapVarFetcher
+	avail map[string]bool
+}
+
+func (f embedFetcher) Cached(_ eval.VariableKey, name string) bool {
+	_, ok := f.MapVarFetcher[name]
+	return ok && (f.avail == nil || f.avail[name])
+}
+
 func tryCall(w *W, tv tryVariant, b Binding, kind CallKind) Outcome {
+	if kind == CallTryEval && b.Avail != nil && !tv.events && w.Evals%5 == 1 {
+		ef := embedFetcher{MapVarFetcher: eval.NewMapVarFetcher(b.Vals), avail: b.Avail}
+		o := guard(func() (eval.Value, error) { return tv.v.E.TryEval(&eval.Ctx{VariableFetcher: ef}) })
+		w.Evals++
+		w.Inc("calls_with_embedding_fetcher")
+		if o.Panic != nil {
+			w.Fail("panic/"+normPanic(o.Panic)+"@"+panicSite(o.Stack), "evaluation panicked: %v\n%s\n%s", o.Panic, describeCase(tv.v.Src, tv.v.Cfg, b), o.Stack)
+		}
+		return o
+	}
 	tr := NewTracer()
 	tr.MaxStack = tv.v.MaxStack
 	f := fetcherFor(b, nil)
@@ -587,7 +609,7 @@ func c04Floors(m *Merged, tier string) []string {
 	if m.C("programs_all_splits_of_5_vars") < 1 {
 		unmet = append(unmet, "no program with 5 variables and all splits")
 	}
-	for _, c := range []string{"all_available_cases", "covering_pairs_definite", "completions_succeeding", "rco_loop_rounds", "unavailable_marked_by_dne_value"} {
+	for _, c := range []string{"all_available_cases", "covering_pairs_definite", "completions_succeeding", "rco_loop_rounds", "unavailable_marked_by_dne_value", "calls_with_embedding_fetcher"} {
 		if m.C(c) == 0 {
 			unmet = append(unmet, c+" = 0")
 		}
